@@ -562,3 +562,84 @@ func constantInt(v constant.Value) (int64, bool) {
 	}
 	return constant.Int64Val(constant.ToInt(v))
 }
+
+// argsAtCallers: the values handed to parameter idx of f at every call site, provided the set of call sites is closed:
+// f is unexported (or a method of an unexported type), is called only statically from library code and is never used as
+// a value (no method value, closure binding, interface dispatch through an exported interface is not excluded — hence
+// methods must not satisfy it by being invoked dynamically: any invoke-mode call with the same method name defeats it).
+func (c *Ctx) argsAtCallers(f *ssa.Function, idx int) ([]ssa.Value, bool) {
+	if f == nil || idx < 0 || idx >= len(f.Params) {
+		return nil, false
+	}
+	if obj := f.Object(); obj == nil || obj.Exported() {
+		return nil, false
+	}
+	var args []ssa.Value
+	closed := true
+	for _, h := range c.libFunctions() {
+		{
+			allInstrs(h, func(_ *ssa.BasicBlock, _ int, in ssa.Instruction) {
+				if ci, ok := in.(ssa.CallInstruction); ok {
+					com := ci.Common()
+					if com.StaticCallee() == f {
+						args = append(args, com.Args[idx])
+						for i, a := range com.Args {
+							if i != idx && a == ssa.Value(f) {
+								closed = false
+							}
+						}
+						return
+					}
+					if com.IsInvoke() && com.Method.Name() == f.Name() {
+						closed = false
+					}
+				}
+				for _, op := range in.Operands(nil) {
+					if op == nil || *op == nil {
+						continue
+					}
+					if fn, ok := (*op).(*ssa.Function); ok && (fn == f || (fn.Synthetic != "" && fn.Object() == f.Object())) {
+						if ci, isCall := in.(ssa.CallInstruction); isCall && ci.Common().Value == *op {
+							continue
+						}
+						closed = false
+					}
+				}
+			})
+		}
+	}
+	return args, closed && len(args) > 0
+}
+
+// phiOnPath: the value a phi takes on the given block path (the edge from the block that precedes the phi's block on
+// the path), resolved repeatedly; v itself when it is not a phi or its block is not entered from a path block.
+func phiOnPath(v ssa.Value, blocks []*ssa.BasicBlock) ssa.Value {
+	for n := 0; n < 16; n++ {
+		phi, ok := v.(*ssa.Phi)
+		if !ok {
+			return v
+		}
+		at := -1
+		for i := len(blocks) - 1; i > 0; i-- {
+			if blocks[i] == phi.Block() {
+				at = i
+				break
+			}
+		}
+		if at < 1 {
+			return v
+		}
+		edge := -1
+		for i, p := range phi.Block().Preds {
+			if p == blocks[at-1] {
+				edge = i
+			}
+		}
+		if edge < 0 {
+			return v
+		}
+		v = phi.Edges[edge]
+		blocks = blocks[:at]
+	}
+	return v
+}
